@@ -69,6 +69,8 @@ pub async fn scenario() {
 	let max_conc = *rt::pick("max_conc", &[256usize, 256, 2]);
 	let with_handler = rt::chance("handler", 1, 3);
 	let n_push = rt::draw_range("n_push", 3, 40);
+	// end the connection (receive error) right after the last push, while items may still be buffered
+	let early_end = rt::chance("early_end", 1, 4);
 	let mut paces = Vec::new();
 	let mut ends = Vec::new();
 	let mut server_close = Vec::new();
@@ -318,11 +320,20 @@ pub async fn scenario() {
 	while !peer_done.load(Ordering::Relaxed) {
 		tokio::time::sleep(Duration::from_millis(50)).await;
 	}
-	tokio::time::sleep(Duration::from_secs(2)).await;
-	let still_connected = client.is_connected();
-	let conn_end_stamp = rt::event("dropping-client", format!("connected={still_connected}"));
-	// wire-level part of the oracle while the connection is still up
-	let model = check_streams_and_wire(&wire, &subs.lock().unwrap(), &pushes.lock().unwrap(), buf, max_conc, still_connected, false, conn_end_stamp);
+	let (still_connected, conn_end_stamp, model);
+	if early_end {
+		rt::probe("early_connection_end");
+		conn_end_stamp = rt::event("connection-reset-by-peer", "");
+		wire.push(super::InItem::Err("injected: connection reset".into()));
+		still_connected = false;
+		model = ();
+	} else {
+		tokio::time::sleep(Duration::from_secs(2)).await;
+		still_connected = client.is_connected();
+		conn_end_stamp = rt::event("dropping-client", format!("connected={still_connected}"));
+		// wire-level part of the oracle while the connection is still up
+		model = check_streams_and_wire(&wire, &subs.lock().unwrap(), &pushes.lock().unwrap(), buf, max_conc, still_connected, false, conn_end_stamp);
+	}
 	drop(client);
 	let mut keep = Vec::new();
 	for h in hs {
